@@ -144,6 +144,8 @@ pub fn gen_system(rng: &mut Rng, opts: &DictOpts, m: &Matrix) -> Lexicon {
             8 => rng.pick(&vocab).clone(),
             _ => textgen::random_key(rng, 1),
         };
+        // a key that starts with '#' (a CSV reader in comment mode would drop the line)
+        let key = if i >= opts.anchor_pos && rng.chance(1, 40) { format!("#{}", key) } else { key };
         let p = if i < opts.anchor_pos { pool[i].clone() } else { rng.pick(&pool).clone() };
         let mut e = Entry::simple(
             &key,
@@ -153,7 +155,8 @@ pub fn gen_system(rng: &mut Rng, opts: &DictOpts, m: &Matrix) -> Lexicon {
             &p,
         );
         if opts.non_indexed && i >= opts.anchor_pos && rng.chance(1, 10) {
-            e.left = -1;
+            // any negative left id marks an entry that is not indexed
+            e.left = *rng.pick(&[-1i16, -1, -1, -2, -32768]);
             e.right = rng.range(0, nid - 1) as i16;
         }
         gen_forms(rng, &mut e, opts);
